@@ -36,7 +36,7 @@ namespace BitSerializer
 
 namespace BitSerializer::Convert::Detail
 {
-	constexpr size_t UtcBufSize = 32;
+	constexpr size_t UtcBufSize = 40;	// Enough for years with 19 digits: +YYYYYYYYYYYYYYYYYYY-MM-DDThh:mm:ssZ
 	constexpr int DaysInMonth[12] = { 31, 29, 31, 30, 31, 30, 31, 31, 30, 31, 30, 31 };
 
 	template <class TFractions = std::chrono::nanoseconds,
@@ -379,8 +379,9 @@ namespace BitSerializer::Convert::Detail
 				*pos++ = utc.Year < 0 ? '-' : '+';
 			}
 			const uint64_t absYear = utc.Year < 0 ? 0 - static_cast<uint64_t>(utc.Year) : static_cast<uint64_t>(utc.Year);
-			const size_t outSize = snprintf(pos, endPos - pos, "%04" PRIu64 "-%02d-%02dT%02d:%02d:%02d", absYear, utc.Month, utc.Day, utc.Hour, utc.Min, utc.Sec);
-			if (outSize > 0)
+			const int outSize = snprintf(pos, endPos - pos, "%04" PRIu64 "-%02d-%02dT%02d:%02d:%02d", absYear, utc.Month, utc.Day, utc.Hour, utc.Min, utc.Sec);
+			// `snprintf` returns the size that the complete output requires, which may be greater than the size of the buffer
+			if (outSize > 0 && outSize < endPos - pos)
 			{
 				pos += outSize;
 				if (utc.SecFractions) {
